@@ -742,9 +742,53 @@ def b13(ctx, rid):
             for (bb, si, kind, r) in f.defs().get(op_local(t['o']), []):
                 if kind == 'assign' and r['k'] == 'discr' and any(o.kind == 'call' and o.data.name == 'get_child' for o in core.origins(f, r['p'][0])):
                     checks += [tg for v, tg in t['vals'] if v == 1]
+        # the guard may live in a predicate helper: `if !self.should_skip(inner) { push }` with should_skip's Leaf arm answering
+        # get_child(..).is_none()
+        helper_ok = False
+        for p in pushes:
+            for i in core.deciding_switches(f, p.bb):
+                t = f.blocks[i]['t']
+                ogs = core.origins(f, t['o'])
+                neg = any(o.kind == 'unop' for o in ogs)
+                calls = []
+                for o in ogs:
+                    if o.kind == 'call':
+                        calls.append(o.data)
+                    elif o.kind == 'unop':
+                        calls += [x.data for x in core.origins(f, o.data['o']) if x.kind == 'call']
+                for hc in calls:
+                    for tgt in prog.resolve(hc):
+                        h = prog.fns.get(tgt)
+                        if h is None or h.file != f.file:
+                            continue
+                        hl = []
+                        for j in h.reachable():
+                            ht = h.blocks[j]['t']
+                            if ht['k'] != 'switch':
+                                continue
+                            for (bb, si, kind, r) in h.defs().get(op_local(ht['o']), []):
+                                if kind == 'assign' and r['k'] == 'discr' and (core.place_type_str(h, r['p']) or '').lstrip('&').startswith('filter::hierarchical::Inner<'):
+                                    vals = dict((v, tg) for v, tg in ht['vals'])
+                                    hl.append(vals.get(leaf_idx, ht['otherwise']))
+                        if not hl:
+                            continue
+                        # on the Leaf arm the helper's result is is_none / is_some of get_child(..)
+                        rets = [o for o in core.origins(h, 0) if o.kind == 'call' and o.data.name in ('is_none', 'is_some') and any(x.kind == 'call' and x.data.name == 'get_child' for x in core.origins(h, o.data.args[0])) and o.data.bb in h.reach_from(hl)]
+                        if not rets:
+                            continue
+                        vacant_true = rets[0].data.name == 'is_none'
+                        # push must lie on the edge where the slot is occupied
+                        want_zero = vacant_true != neg     # helper true = vacant: push on the 0 edge (unless negated)
+                        edge = [tg for v, tg in t['vals'] if (v == 0) == want_zero] or ([t['otherwise']] if (not want_zero) and all(v == 0 for v, _ in t['vals']) else [])
+                        other = [x for x in ([tg for _, tg in t['vals']] + [t['otherwise']]) if x not in edge]
+                        if edge and p.bb in f.reach_from(edge, avoid_enter=[i]) and not any(p.bb in f.reach_from([x], avoid_enter=[i] + [c.bb for c in f.calls if c.name in ('last', 'get_inner')]) for x in other):
+                            helper_ok = True
         for p in pushes:
             n += 1
             key = 'vacated-leaf-not-pushed|%s' % f.id
+            if helper_ok:
+                ctx.ok(rid, key, p.where(), 'the push is guarded by a predicate helper whose Leaf arm answers from get_child(..)')
+                continue
             if not leaf_edges:
                 ctx.bad(rid, key, p.where(), 'no distinction between node and leaf before the push on the traversal stack')
             elif p.bb in f.reach_from(leaf_edges, avoid_enter=checks + [c.bb for c in f.calls if c.name in ('last', 'get_inner') and c.bb in f.reachable()]):
